@@ -259,6 +259,9 @@ class _NormalizePadFormatBase(orp.RewriteRuleClassBase):
 
         # Conv constraints: attributes
         conv_node = conv.producer()
+        if any(attr.is_ref() for attr in conv_node.attributes.values()):
+            # inside a function body: attribute values are only known at the call site
+            return check_result.fail(f"{conv_node.name} ({conv_node.op_type}) has reference attributes.")
         auto_pad = conv_node.attributes.get_string("auto_pad", None)
         if auto_pad in {None, "NOTSET"}:
             return check_result.fail(
